@@ -4,6 +4,7 @@ cd "$(dirname "$0")/.." || exit 2
 seed=${1:-1}; secs=${2:-600}
 for p in C12 C15 C03 C09 C18 C13 C14 C06 C20; do
   echo "=== $p thorough seed=$seed"
-  VERIF_SEED=$seed VERIF_THOROUGH_SECONDS=$secs ./check.sh $p thorough 2>&1 | grep -a "VIOLATION\|KNOWN\|key=\|^C[0-9][0-9]:\|harness\|^  [a-z]" | cut -c1-700
+  VERIF_SEED=$seed VERIF_THOROUGH_SECONDS=$secs ./check.sh $p thorough > .cache/thorough-$p.log 2>&1
   echo "exit=$?"
+  grep -a "VIOLATION\|KNOWN\|key=\|^C[0-9][0-9]:\|harness\|^fatal\|^panic" .cache/thorough-$p.log | cut -c1-700 | head -40
 done
